@@ -177,6 +177,20 @@ Example C18_no_final_end_faithful :
 Proof. exact no_final_end_faithful. Qed.
 Print Assumptions C18_no_final_end_faithful.
 
+(* the repair in general, on the line classifier of the model: a comment line ("#" c) or a blank line inserted at
+   ANY line boundary of an accepted document leaves it accepted, with the same statements and the comment at that
+   place - whatever the reader was doing there (header, truth table, instance info, plain statements, outside
+   a model); a blank line changes nothing at all of the netlist that is built *)
+Theorem C18_comment_lines_transparent : forall d1 d2 l r,
+  gap_line l -> classify (d1 ++ d2) = Ok r ->
+  exists s1 s2, r = s1 ++ s2 /\ classify (d1 ++ l :: d2) = Ok (s1 ++ gap_stmts l ++ s2).
+Proof. exact gap_insertion. Qed.
+Print Assumptions C18_comment_lines_transparent.
+
+Theorem C18_blank_line_irrelevant : forall d1 d2 n, elab (d1 ++ d2) = Ok n -> elab (d1 ++ nil :: d2) = Ok n.
+Proof. exact blank_line_irrelevant. Qed.
+Print Assumptions C18_blank_line_irrelevant.
+
 (* REPAIRED in the code (finding outputs-before-inputs-drops-inputs): .clock, .outputs, .inputs in this order are
    all read, both ports have their direction, the input reaches the gate.  The document stays outside [supported]:
    its conjunct hdr_sorted keeps the order .inputs* .outputs* .clock* (comments and blank lines anywhere), because
